@@ -301,8 +301,8 @@ func main() {
 	if n := os.Getenv("GOSYM_WORKERS"); n != "" {
 		nworkers, _ = strconv.Atoi(n)
 	}
-	debug.SetGCPercent(600)
-	debug.SetMemoryLimit(44 << 30)
+	debug.SetGCPercent(400)
+	debug.SetMemoryLimit(28 << 30)
 	if pf := os.Getenv("GOSYM_PROF"); pf != "" {
 		f, _ := os.Create(pf)
 		pprof.StartCPUProfile(f)
